@@ -1,0 +1,20 @@
+//go:build verif
+
+package segment
+
+import (
+	cppb "github.com/scionproto/scion/pkg/proto/control_plane"
+)
+
+// VerifAssociatedData exposes associatedData to the verification harness (/verif, engine
+// "segverify").
+func (ps *PathSegment) VerifAssociatedData(idx int) [][]byte {
+	return ps.associatedData(idx)
+}
+
+// VerifSegmentFromPB exposes segmentFromPB (parsing without the structural Validate step) to
+// the verification harness, so that signature verification of reordered or truncated
+// segments can be exercised directly.
+func VerifSegmentFromPB(pb *cppb.PathSegment) (*PathSegment, error) {
+	return segmentFromPB(pb)
+}
